@@ -195,6 +195,11 @@ Layout(b) ==
     [] b = "emeb" -> L("emeb", FALSE, {0}, {}, <<>>)
     [] b = "dac3" -> L("dac3", FALSE, {0}, {}, <<UM("fscod_bsid_bsmod_acmod_lfeon_bitratecode", 3, <<0, 0, 31>>)>>)
     [] b = "dec3" -> L("dec3", FALSE, {0}, {}, <<Const("data_rate_num_ind_sub0", <<17, 40>>), UM("fscod_bsid_reserved", 1, <<1>>), U("asvc_bsmod_acmod_lfeon", 1), ConstM("reserved_num_dep_sub0_reserved", <<0>>, <<225>>)>>)
+    \* E-AC-3 with a dependent substream and channel locations (7.1 carried as 5.1 + dependent), and plain 5.1 with the same acmod
+    [] b = "dec3-dep" -> L("dec3", FALSE, {0}, {}, <<Const("data_rate_num_ind_sub0", <<17, 40>>), UM("fscod_bsid_reserved", 1, <<1>>), Const("asvc_bsmod_acmod7_lfeon0", <<14>>),
+                        ConstM("reserved_num_dep_sub1_chan_loc8", <<2>>, <<224>>), Const("chan_loc_7_0", <<3>>)>>)
+    [] b = "dec3-51" -> L("dec3", FALSE, {0}, {}, <<Const("data_rate_num_ind_sub0", <<17, 40>>), UM("fscod_bsid_reserved", 1, <<1>>), Const("asvc_bsmod_acmod7_lfeon1", <<15>>),
+                        ConstM("reserved_num_dep_sub0_reserved", <<0>>, <<225>>)>>)
     [] b = "ec-3" -> L("ec-3", FALSE, {0}, {}, <<Res(Zeros(6)), U("data_reference_index", 2), Res(Zeros(8)), U("channelcount", 2), U("samplesize", 2), Res(Zeros(2)), Res(Zeros(2)),
                         U("samplerate_integer", 2), Const("samplerate_fraction", <<0, 0>>), Kids(<<"dec3", "btrt">>)>>)
     [] b = "ac-3" -> L("ac-3", FALSE, {0}, {}, <<Res(Zeros(6)), U("data_reference_index", 2), Res(Zeros(8)), U("channelcount", 2), U("samplesize", 2), Res(Zeros(2)), Res(Zeros(2)),
